@@ -5,3 +5,5 @@ cd "$(dirname "$0")"
 export CARGO_NET_OFFLINE=true
 (cd driver && cargo build --offline 2>&1 | tail -2)
 python3 -m mokalint.extract /repo mini_moka default
+# warm the witness crate's dependency build (doctests are compiled against /repo on every run)
+(cd witness && cp /repo/Cargo.lock . && CARGO_TARGET_DIR=/verif/.cache/target-witness cargo +nightly test --doc --offline >/dev/null 2>&1 || true)
